@@ -284,6 +284,7 @@ func VerifC10Muxer() {
 			// listing every segment of the first session (cleanup is not immediate) and adds the new ones.
 			if vrt.Param("again") == 1 {
 				fs.check = nil
+				vrt.NativeSleepMs(3) // segment names carry the wall clock in milliseconds
 				m2 := NewMuxer("s1", cfg, c10Obs{})
 				m2.Start()
 				m2.FeedPatPmt(patpmt)
